@@ -329,7 +329,10 @@ class Interp(object):
         self.loopctx = []
         self.preset = []
         self.decisions = []
+        Interp.LAST = self           # (explore() reads the decisions of a run that ended in an exception from here)
         self.reduce_flags = {}       # flag name of all(c)/any(c) -> (kind, c)
+        self._memo_skip = None
+        self.memo_tables = {}        # id(function node) -> [(key values, keyword names, result)] of lru_cache'd functions
         self.depth = 0
         self.sym_kind = {}
         self.symmetric = set()
@@ -388,6 +391,9 @@ class Interp(object):
             return True
         if cond.is_false():
             return False
+        g = self.generic_rank(cond)
+        if g is not None:
+            return g
         k = cond.key()
         if k in self.decided:
             return self.decided[k]
@@ -401,6 +407,39 @@ class Interp(object):
             self.decided[k] = b
             return b
         raise NeedDecision(cond, self.loc(node))
+
+    def generic_rank(self, cond):
+        """The symbolic number of site types `n_types` of the abstract MatrixArray / System worlds stands for a generic rank:
+        at least two types.  A comparison of it with 0 or 1 is decided under that assumption (`if self.rank == 1:` is not
+        taken), because the tensor algebra of these worlds (dot, inv, word) is the algebra of genuine matrices: on a rank-one
+        path `A*B` IS `dot(A,B)`, which the normal form cannot know, so a correct one-component fast path would be reported.
+        One-component behaviour of MatrixArray is decided by the concrete rank-one rule (R13.o) instead."""
+        t = cond.t
+        neg = False
+        while t[0] == 'not':
+            t, neg = t[1], not neg
+        if t[0] != 'cmp':
+            return None
+        a, b = N.nf_from_key(t[1]), N.nf_from_key(t[2])
+
+        def is_rank(x):
+            # n_types itself, or the size of a matrix axis of some stack of matrices (data.shape[1], data.shape[2])
+            ats = list(x.atoms())
+            return len(ats) == 1 and ats[0][0] == 'sym' and x.equals(N.sym(ats[0][1])) and \
+                (ats[0][1] == 'n_types' or ats[0][1].startswith(('shape1(', 'shape2(')))
+        if is_rank(a) and b.is_const():
+            c, outs = b.const_value(), t[3]
+        elif is_rank(b) and a.is_const():
+            c, outs = a.const_value(), frozenset({'lt': 'gt', 'gt': 'lt', 'eq': 'eq'}[o] for o in t[3])
+        else:
+            return None
+        if c >= 2:
+            return None
+        if not getattr(self, '_generic_rank_noted', False):
+            self._generic_rank_noted = True
+            self.notes.append(('assumption', 'generic rank: n_types >= 2 (one-component paths of MatrixArray are decided by R13.o)'))
+        r = 'gt' in outs           # n_types > c for c in {.., 0, 1}
+        return (not r) if neg else r
 
     # ---- coercions ---------------------------------------------------------------------------
     def term_of(self, v, node=None):
@@ -686,6 +725,52 @@ class Interp(object):
             raise Unsupported('call of unknown value (%s)' % f.why, node)
         raise Unsupported('cannot call %r' % (f,), node)
 
+    def memo_decorator(self, f, deco):
+        """functools.lru_cache / functools.cache (however imported): the function is replaced by a memoising wrapper"""
+        head = deco.split('(')[0]
+        try:
+            r = self.prog.resolve_name_in_module(f.module, ast.parse(head, mode='eval').body)
+        except Exception:
+            r = None
+        name = r[1] if isinstance(r, tuple) and len(r) > 1 and r[0] == 'ext' else None
+        return name in ('functools.lru_cache', 'functools.cache')
+
+    def hash_equal(self, x, y, node):
+        """do two call arguments denote the same cache key (hash equal and ==)?"""
+        if x is y:
+            return True
+        for v in (x, y):
+            if isinstance(v, (Arr, View, Masked)) or (isinstance(v, Seq) and v.kind in ('list', 'set')) or \
+                    (isinstance(v, Obj) and v.cls == 'dict'):
+                raise Raised('TypeError', 'unhashable type passed to a memoised function', self.loc(node))
+        if isinstance(x, Obj) and isinstance(y, Obj) and isinstance(x.cls, ClassInfo):
+            eq = x.cls.find_method('__eq__')
+            if eq is None:
+                return False                  # identity semantics
+            if x.cls.find_method('__hash__') is None:
+                raise Raised('TypeError', 'unhashable type: %s defines __eq__ without __hash__' % x.cls.name, self.loc(node))
+            r = self.call_function(self.make_func(eq, x), [y], {}, node)
+            if isinstance(r, Const) and r.v is NotImplemented:
+                return False
+            return bool(self.truth(r, node, ask=True))
+        if isinstance(x, Obj) or isinstance(y, Obj):
+            return False
+        e = self.compare('Eq', x, y, node)
+        return bool(self.truth(e, node, ask=True))
+
+    def memo_call(self, f, args, kwargs, node):
+        table = self.memo_tables.setdefault(id(f.node), [])
+        key = ([f.selfobj] if f.selfobj is not None and not isinstance(f.node, ast.Lambda) else []) + list(args) + \
+            [v for k, v in sorted(kwargs.items())]
+        names = sorted(kwargs)
+        for k0, n0, res in table:
+            if n0 == names and len(k0) == len(key) and all(self.hash_equal(a_, b_, node) for a_, b_ in zip(k0, key)):
+                return res
+        self._memo_skip = f.node          # the wrapped function itself runs once for this miss
+        res = self.call_function(f, args, kwargs, node)
+        table.append((key, names, res))
+        return res
+
     def construct(self, cls, args, kwargs, node=None):
         nat = self.natives.get((cls.name, '__new__'))
         if nat is not None:
@@ -732,14 +817,21 @@ class Interp(object):
         params = [x.arg for x in a.posonlyargs + a.args]
         args = list(args)
         decos = [ast.unparse(d_) for d_ in getattr(fnode, 'decorator_list', [])]
+        memo_key = None
         for d_ in decos:
             base_ = d_.split('(')[0]
             if base_ in ('staticmethod', 'classmethod', 'property', 'abc.abstractmethod', 'abstractmethod') or \
                     base_.endswith('.setter') or base_.endswith('.getter'):
                 continue
+            if self.memo_decorator(f, d_):
+                memo_key = d_
+                continue
             # any other decorator replaces the function by something else (a memoising wrapper, a validator ...): calling
             # the undecorated body would analyse a different program
             raise Unsupported('function %s is wrapped by the decorator @%s, which is not modelled' % (f.name, d_), node)
+        if memo_key is not None and self._memo_skip is not f.node:
+            return self.memo_call(f, args, kwargs, node)
+        self._memo_skip = None
         if 'staticmethod' in decos:
             pass                                    # no implicit first argument
         elif 'classmethod' in decos and f.selfobj is not None:
@@ -779,12 +871,23 @@ class Interp(object):
         self.frames.append(fr)
         self.depth += 1
         try:
+            # defaults were evaluated when the function was defined: for a method, in the namespace of the class body
+            denv = env
+            fcls = f.cls_ctx if isinstance(f.cls_ctx, ClassInfo) else None
+            if fcls is not None and (defaults or a.kw_defaults):
+                used = {n_.id for d_ in list(defaults) + [x for x in a.kw_defaults if x is not None]
+                        for n_ in ast.walk(d_) if isinstance(n_, ast.Name)}
+                names = [n_ for n_ in used if n_ in fcls.class_attrs and env.get(n_) is None]
+                if names:
+                    denv = Env(env)
+                    for n_ in names:
+                        denv.set(n_, self.eval_class_attr(fcls, fcls.class_attrs[n_]))
             for p, d in zip(dparams, defaults):
                 if p not in bound:
-                    bound[p] = self.eval(d, env)
+                    bound[p] = self.eval(d, denv)
             for ka, d in zip(a.kwonlyargs, a.kw_defaults):
                 if ka.arg not in bound and d is not None:
-                    bound[ka.arg] = self.eval(d, env)
+                    bound[ka.arg] = self.eval(d, denv)
             for p in params:
                 if p not in bound:
                     raise Raised('TypeError', 'missing argument %s of %s' % (p, f.name))
@@ -948,6 +1051,16 @@ class Interp(object):
                 # `if <array condition>:` -- numpy refuses to reduce an array of more than one element to a bool
                 raise Raised('ValueError', 'The truth value of an array with more than one element is ambiguous (%s)' % c.show(),
                              self.loc(node))
+            if ask:
+                return self.decide(c, node)
+            return None
+        if isinstance(v, Num) and v.kind == 'scalar' and not P.is_pw(v.t):
+            # `if x:` / `not x` on a number: it is true unless the number is zero -- a data condition
+            c = P.Cond.cmp('!=', v.t, N.NF.const(0))
+            if c.is_true():
+                return True
+            if c.is_false():
+                return False
             if ask:
                 return self.decide(c, node)
             return None
@@ -1620,6 +1733,31 @@ class Interp(object):
                         return Const('<str>')
                     raise Unsupported('str.join over %r' % (it,), n)
                 return Native('str.join', join, o)
+            if name == 'format':
+                def fmt(ip, s_, a, k, n):
+                    # the text is not modelled, the binding of replacement fields to arguments is: a field without a
+                    # matching argument raises IndexError / KeyError instead of whatever the message was meant for
+                    import string as _string
+                    try:
+                        fields = [f_ for _, f_, _, _ in _string.Formatter().parse(s_.v) if f_ is not None]
+                    except ValueError as e_:
+                        raise Raised('ValueError', str(e_), ip.loc(n))
+                    auto = 0
+                    for f_ in fields:
+                        head = f_.split('.')[0].split('[')[0]
+                        if head == '':
+                            idx_ = auto
+                            auto += 1
+                        elif head.isdigit():
+                            idx_ = int(head)
+                        else:
+                            if head not in k:
+                                raise Raised('KeyError', head, ip.loc(n))
+                            continue
+                        if idx_ >= len(a):
+                            raise Raised('IndexError', 'Replacement index %d out of range for positional args tuple' % idx_, ip.loc(n))
+                    return Const('<str>')
+                return Native('str.format', fmt, o)
             return Native('str.' + name, lambda ip, s, a, k, n: Const('<str>'), o)
         if isinstance(o, Seq):
             return self.lib.seq_attr(self, o, name, node)
@@ -1791,6 +1929,12 @@ class Interp(object):
             t, cells = self.cell_arith(op, a, b, node)
             r = self.fresh_array(t)
             r.cells = cells
+            for x_ in (a, b):
+                while isinstance(x_, View) and x_.idx == ('all',):
+                    x_ = x_.base
+                if getattr(x_, 'dims', None) is not None and len(x_.dims) == 3:
+                    r.dims = x_.dims
+                    break
             return r
         t = self.arith(op, a, b, node)
         kind = 'array' if any(getattr(x, 'kind', 'scalar') == 'array' or isinstance(x, Seq)
@@ -1842,7 +1986,11 @@ class Interp(object):
         cells = {}
         for (i, j) in sorted(keys):
             cells[(i, j)] = self.arith_terms(op, cell(a, i, j), cell(b, i, j), node)
-        return self.arith_terms(op, base(a), base(b), node), cells
+        try:
+            bt = self.arith_terms(op, base(a), base(b), node)
+        except (Unsupported, ZeroDivisionError):
+            bt = base(a)          # entries that were never stored (still the allocation value): only the stored ones matter
+        return bt, cells
 
     def masked_arith(self, op, a, b, node):
         cond = None
@@ -2043,8 +2191,8 @@ class Interp(object):
                 # identity of constants: the singletons and equal literals of the same type (1 is not True); a `boxed`
                 # constant stands for an object built at run time (a label read from a file): equal to, but not the same
                 # object as, any other
-                if getattr(a, 'boxed', False) or getattr(b, 'boxed', False):
-                    r = a is b
+                if getattr(a, 'boxed', False) or getattr(b, 'boxed', False) or getattr(a, 'npbool', False) or getattr(b, 'npbool', False):
+                    r = a is b          # (numpy.bool_(True) is not the singleton True)
                 else:
                     r = a.v is b.v or (type(a.v) is type(b.v) and a.v == b.v)
             elif isinstance(a, Const) or isinstance(b, Const):
@@ -2141,6 +2289,12 @@ class Interp(object):
             if sym == '!=':
                 return Const(a.v != b.v)
             raise Unsupported('ordering of constants', node)
+        if sym in ('<', '<=', '>', '>=') and (isinstance(a, Const) or isinstance(b, Const)):
+            # an int / float held as a constant (an integer site-type label) orders like the number it is
+            conv = lambda x: const_num(x.v) if isinstance(x, Const) and isinstance(x.v, (int, float)) and not isinstance(x.v, bool) else x
+            a2, b2 = conv(a), conv(b)
+            if (a2 is not a or b2 is not b) and not isinstance(a2, Const) and not isinstance(b2, Const):
+                return self.compare(op, a2, b2, node)
         if isinstance(a, Const) or isinstance(b, Const):
             c, o = (a, b) if isinstance(a, Const) else (b, a)
             if isinstance(o, (Num, Arr, View)) and isinstance(c.v, (bool,)) and sym in ('==', '!='):
@@ -2219,6 +2373,8 @@ class Interp(object):
                 return ('mask', v.cond)
             if is_const_num(v):
                 return ('at', int(num_value(v)))
+            if isinstance(v, Const) and isinstance(v.v, int) and not isinstance(v.v, bool):
+                return ('at', v.v)          # an integer held as a constant (an integer site-type label used as a position)
             if isinstance(v, Index):
                 return ('atlabel', v.label)
             if isinstance(v, (Arr, Num)) and getattr(v, 'kind', '') == 'array' and not P.is_pw(v.t):
@@ -2273,6 +2429,8 @@ class Interp(object):
                 raise Raised('TypeError', '%s is not subscriptable' % o.clsname, self.loc(node))
             return self.call(m, [self.index_to_value(idx)], {}, node)
         if isinstance(o, Seq):
+            if idx[0] == 'value' and isinstance(idx[1], Const) and isinstance(idx[1].v, int) and not isinstance(idx[1].v, bool):
+                idx = ('value', const_num(idx[1].v))
             if idx[0] == 'value' and is_const_num(idx[1]):
                 i = int(num_value(idx[1]))
                 try:
@@ -2311,6 +2469,21 @@ class Interp(object):
         if isinstance(o, Types):
             return self.lib.types_getitem(self, o, idx, node)
         if isinstance(o, Const) and isinstance(o.v, str):
+            if o.v != '<str>':
+                # a known text (string.ascii_uppercase[:rank]) indexed or sliced with constants
+                def cint(x):
+                    if x is None:
+                        return None
+                    if is_const_num(x) and num_value(x).denominator == 1:
+                        return int(num_value(x))
+                    raise Unsupported('string index that is not a constant', node)
+                if idx[0] == 'slice':
+                    return Const(o.v[cint(idx[1]):cint(idx[2]):cint(idx[3])])
+                if idx[0] == 'value' and is_const_num(idx[1]):
+                    try:
+                        return Const(o.v[cint(idx[1])])
+                    except IndexError:
+                        raise Raised('IndexError', 'string index out of range', self.loc(node))
             return Const('<str>')
         if isinstance(o, Unknown):
             raise Unsupported('subscript of unknown value (%s)' % o.why, node)
@@ -2369,6 +2542,10 @@ class Interp(object):
                 return
             if d[0] == 'all':
                 newt, _ = self.term_of(v, node)
+                if getattr(o, 'inty', False) and not self.inty(v):
+                    # x[:] = values keeps the dtype of x: an integer array truncates floating-point values
+                    self.event('int-store', o.origin, node)
+                    newt = P.lift1(lambda y: N.fn('int_trunc', y), newt)
                 o.cells = None
                 o.t = newt
                 if not o.fresh:
@@ -2478,5 +2655,7 @@ def explore(make_and_run, limit=64, keep_raised=False):
             work.append(preset + [True])
         except Raised as e:
             if keep_raised:
+                last = getattr(Interp, 'LAST', None)
+                e.decisions = list(last.decisions) if last is not None else []      # the conditions this path was taken under
                 out.append((list(preset), None, e))
     return out
